@@ -2051,6 +2051,24 @@ class UTPM(Ring, RawAlgorithmsMixIn):
         else:
             xbar, ybar = out
 
+        # a constant (plain array) operand is lifted to a constant polynomial, its adjoint is discarded (as in pb_dot)
+        D,P = z.data.shape[:2]
+        if not isinstance(x,cls):
+            tmp = cls(numpy.zeros((D,P) + numpy.shape(x),dtype=z.data.dtype))
+            tmp[...] = numpy.asarray(x)
+            x = tmp
+
+        if not isinstance(xbar,cls):
+            xbar = cls(numpy.zeros((D,P) + x.shape,dtype=z.data.dtype))
+
+        if not isinstance(y,cls):
+            tmp = cls(numpy.zeros((D,P) + numpy.shape(y),dtype=z.data.dtype))
+            tmp[...] = numpy.asarray(y)
+            y = tmp
+
+        if not isinstance(ybar,cls):
+            ybar = cls(numpy.zeros((D,P) + y.shape,dtype=z.data.dtype))
+
         cls._outer_pullback(zbar.data, x.data, y.data, z.data, out = (xbar.data, ybar.data))
         return (xbar,ybar)
 
@@ -3356,7 +3374,7 @@ class UTPM(Ring, RawAlgorithmsMixIn):
                 sl = [slice(None)]*tmp.ndim
                 sl[axis] = slice(0,L)
                 sl = tuple(sl)
-                abar.data[d,p][sl] += tmp[sl]
+                numpy.add(abar.data[d,p][sl], tmp[sl], out=abar.data[d,p][sl], casting="unsafe")
 
         return abar
 
